@@ -216,4 +216,29 @@ Fixpoint outboard_po_loop_r (items : list chunk) (stack : list hash) (rd : reade
   end.
 Definition outboard_post_order_r (t : tree) (rd : reader) : res io_kind hash * bytes * reader :=
   outboard_po_loop_r (post_order_chunks_iter t) [] rd [].
+
+(* sync::outboard (outboard_impl) reading the blob through a scheduled reader (sync.rs:545-579) *)
+Fixpoint outboard_loop_r (items : list chunk) (stack : list hash) (rd : reader) (ob : outboard HO)
+  : res io_kind hash * outboard HO * reader :=
+  match items with
+  | [] => match stack with [h] => (Ok h, ob, rd) | _ => (Panic, ob, rd) end
+  | CParent node is_root _ _ _ :: rest =>
+      match stack with
+      | rh :: lh :: stk =>
+          match save HO ob node lh rh with
+          | Ok ob' => outboard_loop_r rest (parent_cv HO lh rh is_root :: stk) rd ob'
+          | Err k => (Err k, ob, rd)
+          | Panic => (Panic, ob, rd)
+          end
+      | _ => (Panic, ob, rd)
+      end
+  | CLeaf start size is_root _ :: rest =>
+      match read_exact_sync rd size with
+      | (Ok buf, rd') => outboard_loop_r rest (hash_subtree HO start buf is_root :: stack) rd' ob
+      | (Err k, rd') => (Err k, ob, rd')
+      | (Panic, rd') => (Panic, ob, rd')
+      end
+  end.
+Definition outboard_impl_r (t : tree) (rd : reader) (ob : outboard HO) : res io_kind hash * outboard HO * reader :=
+  outboard_loop_r (post_order_chunks_iter t) [] rd ob.
 End IOSched.
